@@ -269,6 +269,7 @@ fn e1_plan(prop: P, tier: &Tier) -> Vec<PlanItem> {
                 // soft requirements: accepted soft solvables are additional roots of the support
                 v.push(item(Box::new(Decorated::new_with("F5 soft skeletons", soft_skeletons(), f5k(q), false, &f5_filter)), two_axes(), if q { 1 } else { 2 }));
                 v.push(item(Box::new(F11), two_axes(), 1));
+                v.push(item(Box::new(F12), two_axes(), 1));
             }
             if prop == P::C02 {
                 v.push(item(Box::new(F11), two_axes(), 1));
@@ -382,6 +383,10 @@ fn e1_plan(prop: P, tier: &Tier) -> Vec<PlanItem> {
                 1,
             ),
             item(Box::new(F11), two_axes(), 1),
+            // hints on the shared packages only (a; x; a and x): candidates that are encoded ahead of time
+            // under the transient decisions of one soft run and needed again by a later one
+            item(Box::new(F11), hint_masks(&[0b001000, 0b010000, 0b011000]), 1),
+            item(Box::new(F12), two_axes(), 1),
         ],
     }
 }
